@@ -2,7 +2,7 @@
 # harvest.sh Cxx [round] : copy a sub-agent's deliverables into /verif/seeded/Cxx-k/
 #   round 1: /tmp/mut/Cxx/_mut/{1,2}  -> Cxx-1, Cxx-2 ;  round 2: /tmp/mut2/Cxx/_mut/{1,2} -> Cxx-3, Cxx-4 ; round r: /tmp/mut<r>/...
 p=$1; r=${2:-1}
-if [ "$r" = 1 ]; then base=/tmp/mut; else base=/tmp/mut$r; fi
+if [ -n "$MUT_BASE" ]; then base=$MUT_BASE; elif [ "$r" = 1 ]; then base=/tmp/mut; else base=/tmp/mut$r; fi
 off=$(( (r-1)*2 ))
 for k in 1 2 3; do
   d=$base/$p/_mut/$k
